@@ -1012,6 +1012,19 @@ func (w *ledgerWorld) slash(prev *ledgerSnap, op sdk.AccAddress) *ledgerSnap {
 		infr = 3 - w.lastSlash.infr
 	}
 	w.lastSlash = &slashEvent{op, infraction, infr}
+	// every other slash aims at a chosen effective proportion (0.3 .. 0.9 of the operator's current
+	// value) instead of a random power x factor, so that one pending record is regularly hit by
+	// two partial slashes whose cuts add up to more than the record (the cap of the second cut).
+	if r.Chance(1, 2) {
+		if info, verr := c.App.OperatorKeeper.CalculateUSDValueForOperator(c.Ctx, true, op.String(), nil, nil, nil); verr == nil && info.StakingAndWaitUnbonding.IsPositive() {
+			target := []string{"0.3", "0.5", "0.6", "0.9"}[r.Intn(4)]
+			pw := sdkmath.LegacyMustNewDecFromStr(target).Mul(info.StakingAndWaitUnbonding).MulInt64(1000000).TruncateInt()
+			if pw.IsInt64() && pw.IsPositive() {
+				power, factor = pw.Int64(), "0.000001"
+				w.env.Outcome("slash.targeted")
+			}
+		}
+	}
 	slashID := operatorkeeper.GetSlashIDForDogfood(infr, infraction)
 	_, rerr := c.App.OperatorKeeper.GetOperatorSlashInfo(c.Ctx, c.AVSAddr, op.String(), slashID)
 	isReplay := rerr == nil
